@@ -36,6 +36,27 @@ def _h(x: float) -> str:
     return "h:" + float(x).hex()
 
 
+def _i(n: int) -> str:
+    """an INTEGER-typed argument (python int; lists / arrays / Series made only of them have an integer dtype)"""
+    return f"i:{int(n)}"
+
+
+def _tv(tok: str):
+    """value of a literal token (`h:` float, `i:` int)"""
+    return int(tok[2:]) if tok.startswith("i:") else float.fromhex(tok[2:])
+
+
+def _scaled(tok: str, c) -> str:
+    """the literal token times c; integers stay integers under an integer factor"""
+    if tok.startswith("i:") and float(c).is_integer():
+        return _i(int(tok[2:]) * int(c))
+    return _h(_tv(tok) * c)
+
+
+def _np_dtype(vals):
+    return "int64" if vals and all(isinstance(v, int) and not isinstance(v, bool) for v in vals) else "float64"
+
+
 # ---------------------------------------------------------------------- implementation side
 def _resolve(tok, draws):
     """token -> float (or the residual placeholder)"""
@@ -43,6 +64,8 @@ def _resolve(tok, draws):
     kind, _, arg = tok.partition(":")
     if kind == "h":
         return float.fromhex(arg)
+    if kind == "i":
+        return int(arg)
     if kind == "R":
         return "R"
     d = float(draws.iloc[int(arg)])
@@ -94,12 +117,12 @@ def _prob_object(env, kind, vals, req):
     if kind == "tuple":
         return tuple(vals)
     if kind == "array":
-        return np.array(vals, dtype=float)
+        return np.array(vals, dtype=_np_dtype(vals))
     if kind == "series":
-        return pd.Series(np.array(vals, dtype=float), index=env.index(req))
+        return pd.Series(np.array(vals, dtype=_np_dtype(vals)), index=env.index(req))
     if kind == "series_perm":
         k = list(range(len(req)))[::-1]
-        return pd.Series(np.array([vals[i] for i in k], dtype=float), index=env.index([req[i] for i in k]))
+        return pd.Series(np.array([vals[i] for i in k], dtype=_np_dtype(vals)), index=env.index([req[i] for i in k]))
     raise ValueError(kind)
 
 
@@ -148,7 +171,7 @@ def _run_ops(case):
         try:
             if kind in ("filter", "rate"):
                 _, _, popkind, _, (pkind, toks), _ = op
-                if draws is None and any(not t.startswith("h:") for t in toks):
+                if draws is None and any(not t.startswith(("h:", "i:")) for t in toks):
                     o["r"] = "skip"
                     continue
                 vals = [_resolve(t, draws) for t in toks]
@@ -187,7 +210,8 @@ def _run_ops(case):
                     py = [[RESIDUAL_CHOICE if v == "R" else v for v in row] for row in rv]
                     p = py[0] if dim == 1 else py
                     if cont == "array":
-                        p = np.array(p, dtype=object if any(v == "R" for row in rv for v in row) else float)
+                        flat = [v for row in rv for v in row]
+                        p = np.array(p, dtype=object if any(v == "R" for v in flat) else _np_dtype(flat))
                     elif cont == "tuple":
                         p = tuple(p) if dim == 1 else tuple(tuple(r) for r in p)
                 if kind == "choice":
@@ -291,9 +315,13 @@ class C05(Prop):
     def _pvals(self, rng, n, own=True):
         """n probability tokens"""
         out = []
+        if rng.random() < 0.12:          # integer-typed probabilities only: the list / array / Series has an integer dtype
+            return [_i(rng.choice([0, 0, 1, 1, 2])) for _ in range(n)]
         for i in range(n):
             r = rng.random()
-            if r < 0.12:
+            if r < 0.04:
+                out.append(_i(rng.choice([0, 1, 1, 3])))
+            elif r < 0.12:
                 out.append(_h(0.0))
             elif r < 0.22:
                 out.append(_h(1.0))
@@ -318,7 +346,10 @@ class C05(Prop):
         out = []
         for t in toks:
             r = rng.random()
-            if t.startswith("h:"):
+            if t.startswith("i:"):
+                v = int(t[2:])
+                out.append(t if r < 0.3 else _i(v + rng.choice([0, 1, 2, 100])) if r < 0.8 else _h(v + rng.choice([0.0, 0.5])))
+            elif t.startswith("h:"):
                 v = float.fromhex(t[2:])
                 out.append(t if r < 0.4 else _h(v + rng.choice([0.0, 2.0 ** -53, 0.125, 0.5, 1.0])))
             elif t.startswith("d-:"):
@@ -336,6 +367,8 @@ class C05(Prop):
             cuts = sorted(rng.randint(0, units) for _ in range(k - 1))
             parts = [b - a for a, b in zip([0] + cuts, cuts + [units])]
             scale = rng.choice([1.0 / units, 1.0 / units, 1.0, 4.0 / units, 0.5 / units])
+            if scale == 1.0 and rng.random() < 0.6:
+                return [_i(p) for p in parts]            # integer weights (integer dtype as an array)
             return [_h(p * scale) for p in parts]
         if style == "zeros":
             parts = [rng.choice([0, 0, 1, 2, 3]) for _ in range(k)]
@@ -345,6 +378,8 @@ class C05(Prop):
                 parts[-1] = 0
             if sum(parts) == 0:
                 parts[rng.randrange(k)] = 2
+            if rng.random() < 0.5:
+                return [_i(p) for p in parts]
             return [_h(float(p)) for p in parts]
         if style == "float":
             return [_h(rng.choice([0.0, rng.random(), rng.random(), rng.randint(1, 9) / 10.0])) for _ in range(k)]
@@ -376,14 +411,14 @@ class C05(Prop):
             row = self._weights_row(rng, k, rng.choice(["dyadic", "zeros", "float"]))
             ops.append(["choice", si, req, ck(), k, [1, cont(), [row]], ak])
             c = rng.choice([2.0, 0.25, 3.0, 8.0, 0.1])
-            ops.append(["choice", si, req, ck(), k, [1, cont(), [[_h(float.fromhex(t[2:]) * c) for t in row]]], ak])
+            ops.append(["choice", si, req, ck(), k, [1, cont(), [[_scaled(t, c) for t in row]]], ak])
         elif r < 0.5:      # 2-d rows
             rows = [self._weights_row(rng, k, rng.choice(["dyadic", "dyadic", "zeros", "float"])) for _ in range(n)]
             ops.append(["choice", si, req, ck(), k, [2, cont(), rows], ak])
             if rng.random() < 0.5 and n:
                 cs = [rng.choice([2.0, 0.5, 4.0, 3.0]) for _ in range(n)]
                 ops.append(["choice", si, req, ck(), k,
-                            [2, cont(), [[_h(float.fromhex(t[2:]) * c) for t in row] for row, c in zip(rows, cs)]], ak])
+                            [2, cont(), [[_scaled(t, c) for t in row] for row, c in zip(rows, cs)]], ak])
         elif r < 0.68:     # residual placeholder and the spelled-out row
             if rng.random() < 0.5 or n == 0:
                 row = self._unit_row(rng, k)
@@ -499,6 +534,27 @@ class C05(Prop):
                 else:
                     ops.append(["filter", si, popkind(), req, ["series_perm", self._pvals(rng, n, own=False)], ak])
             # --- rates
+            if rng.random() < 0.55:
+                # integer-typed rates: python ints, lists / tuples / arrays / Series of integer dtype, and mixtures with floats;
+                # next to them the same rates lowered by a float (monotonicity across the dtypes) and raised
+                IR = [0, 1, 1, 2, 5, 249, 250, 251, 400]
+                pk = popkind()
+                if rng.random() < 0.4:
+                    v = rng.choice(IR)
+                    kind = rng.choice(["scalar", "array0"])
+                    ops.append(["rate", si, pk, req, [kind, [_i(v)]], ak])
+                    ops.append(["rate", si, popkind(), req, [rng.choice(["scalar", "array0"]), [_h(v * rng.choice([0.5, 0.25, 1.0]))]], ak])
+                    ops.append(["rate", si, popkind(), req, [kind, [_i(v + rng.choice([0, 1, 3]))]], ak])
+                else:
+                    ints = [rng.choice(IR) for _ in range(n)]
+                    kind = rng.choice(["list", "tuple", "array", "series"])
+                    toks = [_i(v) for v in ints]
+                    if rng.random() < 0.25 and n:
+                        j = rng.randrange(n)
+                        toks[j] = _h(float(ints[j]))            # one float among the ints: the whole array is float
+                    ops.append(["rate", si, pk, req, [kind, toks], ak])
+                    ops.append(["rate", si, popkind(), req, [rng.choice(["list", "array", "series"]), [_h(v * rng.choice([0.5, 1.0, 0.75])) for v in ints]], ak])
+                    ops.append(["rate", si, popkind(), req, [rng.choice(["list", "tuple", "array", "series"]), self._raise_tokens(rng, toks)], ak])
             if rng.random() < 0.7:
                 rates = [rng.choice([0.0, 0.0, 0.125, 1.0, 3.0, 40.0, 250.0, 251.0, 1e6, rng.random(), rng.random() * 5]) for _ in range(n)]
                 kind = rng.choice(["list", "array", "series", "tuple"])
@@ -543,7 +599,24 @@ class C05(Prop):
                         ["filter", 0, pk, [lab[1], lab[4], lab[1]], ["series_perm", [H(0.0), H(1.0), H(1.0)]], None],
                         ["filter", 0, pk, req, ["tuple", [H(0.5)]], None], ["filter", 0, pk, req, ["list", [H(0.5)]], None],
                         ["rate", 0, pk, req, ["scalar", [H(0.0)]], None], ["rate", 0, pk, req, ["scalar", [H(1000.0)]], None],
-                        ["rate", 0, pk, req, ["list", [H(x) for x in (0.0, 0.1, 1.0, 5.0, 250.0, 300.0)]], None]]
+                        ["rate", 0, pk, req, ["list", [H(x) for x in (0.0, 0.1, 1.0, 5.0, 250.0, 300.0)]], None],
+                        # integer-typed arguments (python int, integer-dtype list / tuple / ndarray / Series) next to smaller float ones
+                        ["rate", 0, pk, req, ["scalar", [H(0.5)]], None], ["rate", 0, pk, req, ["scalar", [_i(1)]], None],
+                        ["rate", 0, pk, req, ["scalar", [_i(2)]], None], ["rate", 0, pk, req, ["array0", [_i(1)]], None],
+                        ["rate", 0, pk, req, ["scalar", [_i(0)]], None], ["rate", 0, pk, req, ["scalar", [_i(250)]], None],
+                        ["rate", 0, pk, req, ["scalar", [_i(251)]], None], ["rate", 0, pk, req, ["scalar", [_i(400)]], None],
+                        ["rate", 0, pk, req, ["list", [H(x) for x in (0.0, 0.5, 1.0, 2.5, 100.0, 125.0)]], None],
+                        ["rate", 0, pk, req, ["list", [_i(x) for x in (0, 1, 2, 5, 249, 250)]], None],
+                        ["rate", 0, pk, req, ["tuple", [_i(x) for x in (1, 1, 2, 5, 251, 400)]], None],
+                        ["rate", 0, pk, req, ["array", [_i(x) for x in (0, 1, 2, 5, 249, 250)]], None],
+                        ["rate", 0, pk, req, ["series", [_i(x) for x in (1, 2, 2, 5, 250, 400)]], None],
+                        ["rate", 0, pk, req, ["array", [_i(1), H(1.0), _i(2), _i(5), _i(251), _i(0)]], None],
+                        ["filter", 0, pk, req, ["scalar", [_i(0)]], None], ["filter", 0, pk, req, ["scalar", [_i(1)]], None],
+                        ["filter", 0, pk, req, ["array0", [_i(1)]], None], ["filter", 0, pk, req, ["scalar", [_i(2)]], None],
+                        ["filter", 0, pk, req, ["list", [_i(x) for x in (0, 1, 0, 1, 2, 0)]], None],
+                        ["filter", 0, pk, req, ["array", [_i(x) for x in (0, 1, 0, 1, 2, 0)]], None],
+                        ["filter", 0, pk, req, ["series", [_i(x) for x in (1, 1, 0, 0, 1, 3)]], None],
+                        ["filter", 0, pk, req, ["tuple", [_i(x) for x in (1, 0, 0, 0, 1, 1)]], None]]
             bad = 1000 if crn else 101
             ops += [["filter", 0, "index", [lab[0], bad], ["scalar", [H(1.0)]], None],
                     ["choice", 0, [lab[0], bad], "list", 2, None, None]]
@@ -554,6 +627,12 @@ class C05(Prop):
                     ["choice", 1, req, "series", 3, [2, "list", [[f"d:{i}", H(0.0), "R"] for i in range(n)]], None],
                     ["choice", 1, req, "list", 3, [1, "list", [[H(0.25), H(0.0), H(0.75)]]], None],
                     ["choice", 1, req, "list", 3, [1, "list", [[H(1.0), H(0.0), H(3.0)]]], None],
+                    ["choice", 1, req, "list", 3, [1, "list", [[_i(1), _i(0), _i(3)]]], None],
+                    ["choice", 1, req, "array", 3, [1, "array", [[_i(1), _i(0), _i(3)]]], None],
+                    ["choice", 1, req, "list", 3, [1, "tuple", [[_i(2), _i(0), _i(6)]]], None],
+                    ["choice", 1, req, "list", 2, [2, "array", [[_i(1), _i(3)], [_i(0), _i(4)], [_i(2), _i(2)], [_i(4), _i(0)], [_i(3), _i(1)], [_i(1), _i(1)]]], None],
+                    ["choice", 1, req, "list", 2, [1, "list", [[_i(0), "R"]]], None], ["choice", 1, req, "list", 2, [1, "array", [["R", _i(1)]]], None],
+                    ["choice", 1, req, "list", 2, [1, "list", [[_i(2), "R"]]], None],
                     ["choice", 1, req, "list", 3, [1, "list", [[H(0.25), H(0.0), "R"]]], None],
                     ["choice", 1, req, "list", 3, [1, "list", [["R", H(0.0), H(0.75)]]], None],
                     ["choice", 1, req, "list", 3, [1, "array", [[H(0.25), "R", "R"]]], None],
@@ -931,6 +1010,12 @@ class C05(Prop):
             if kind in ("filter", "rate"):
                 _, si, popkind, req, (pkind, toks), ak = op
                 t += [f"pop:{popkind}", f"arg:{pkind}"]
+                if toks and all(x.startswith("i:") for x in toks):
+                    t.append(f"dtype:int-{'rate' if kind == 'rate' else 'probability'}")
+                    if kind == "rate" and any(1 <= int(x[2:]) <= 250 for x in toks):
+                        t.append("int-rate-in-1..250")
+                elif any(x.startswith("i:") for x in toks):
+                    t.append("dtype:mixed-int-float")
                 if not req:
                     t.append("pop-empty")
                 if o["r"] == "ok" and req and "dhx" in o:
@@ -954,6 +1039,8 @@ class C05(Prop):
             else:
                 wspec = op[3] if kind == "rchoice" else op[5]
                 t.append("weights:" + ("none" if wspec is None else f"{wspec[0]}d-{wspec[1]}"))
+                if wspec is not None and all(c == "R" or c.startswith("i:") for r in wspec[2] for c in r):
+                    t.append("dtype:int-weights")
                 whx = o.get("whx")
                 if whx:
                     if any(c == "R" for r in whx for c in r):
